@@ -1,0 +1,73 @@
+//go:build verif
+
+package proxy
+
+import (
+	"context"
+
+	"go.minekube.com/common/minecraft/component"
+	"go.minekube.com/gate/pkg/edition/java/netmc"
+	"go.minekube.com/gate/pkg/edition/java/profile"
+	"go.minekube.com/gate/pkg/edition/java/proto/packet"
+	"go.minekube.com/gate/pkg/edition/java/proxy/crypto"
+)
+
+// Verification hook (build tag `verif`, add-only): constructs the real backendLoginSessionHandler
+// around caller-supplied connections and exposes what it decided. No logic of its own.
+
+// C20VelocityIpForwardingFailure is the reason used when a backend never asked for forwarding data.
+var C20VelocityIpForwardingFailure component.Component = velocityIpForwardingFailure
+
+// C20BackendLogin is a backend login session handler together with the objects it acts on.
+type C20BackendLogin struct {
+	Handler netmc.SessionHandler // the real *backendLoginSessionHandler
+	h       *backendLoginSessionHandler
+	sc      *serverConnection
+	results chan *connResponse
+}
+
+// C20NewBackendLogin wires newConnectedPlayer → newServerConnection → newBackendLoginSessionHandler.
+func C20NewBackendLogin(
+	p *Proxy,
+	playerConn, backendConn netmc.MinecraftConn,
+	prof *profile.GameProfile,
+	key crypto.IdentifiedKey,
+	server ServerInfo,
+) *C20BackendLogin {
+	deps := &sessionHandlerDeps{
+		proxy:          p,
+		registrar:      p,
+		configProvider: p,
+		eventMgr:       p.event,
+		authenticator:  p.authenticator,
+		loginsQuota:    p.loginsQuota,
+	}
+	player := newConnectedPlayer(playerConn, prof, nil, packet.LoginHandshakeIntent, false, key, deps)
+	sc := newServerConnection(newRegisteredServer(server), nil, player)
+	sc.connection = backendConn
+	results := make(chan *connResponse, 1)
+	h := newBackendLoginSessionHandler(sc, &connRequestCxt{
+		Context:  context.Background(),
+		response: results,
+	}, deps).(*backendLoginSessionHandler)
+	return &C20BackendLogin{Handler: h, h: h, sc: sc, results: results}
+}
+
+// Forwarded reports informationForwarded.
+func (c *C20BackendLogin) Forwarded() bool { return c.h.informationForwarded.Load() }
+
+// Connected reports whether the server connection still holds its backend connection.
+func (c *C20BackendLogin) Connected() bool { _, ok := c.sc.ensureConnected(); return ok }
+
+// Result returns the result delivered to the connection request, if one was delivered.
+func (c *C20BackendLogin) Result() (res ConnectionResult, safe bool, err error, delivered bool) {
+	select {
+	case r := <-c.results:
+		if r.connectionResult != nil {
+			return r.connectionResult, r.connectionResult.safe, r.error, true
+		}
+		return nil, false, r.error, true
+	default:
+		return nil, false, nil, false
+	}
+}
